@@ -2,6 +2,8 @@ SPECIFICATION Spec
 CONSTANTS
   NProms = {1}
   LayoutIds = {2}
+  Eols = {"lf", "crlf"}
+  Priors = {"none", "expired"}
   Rules = {1, 2, 3, 4, 5, 6, 7, 8, 9, 10, 11}
   Scopes = {"rule", "file"}
   OnlyBasePairs = TRUE
